@@ -44,6 +44,7 @@ THEOREMS = [
     "KrroodVerif.SqlTr.C07_cex_null_in",
     "KrroodVerif.SqlTr.C07_cex_set_of_escapes",
     "KrroodVerif.SqlTr.C07_cex_eq_join_under_or",
+    "KrroodVerif.SqlTr.C07_cex_like_substring",
 ]
 MODEL_FUNCTION = "SqlTr.translate / SqlTr.execSql / SqlTr.evalMem (Model/SqlTr.lean)"
 TRUSTED = [
@@ -60,10 +61,10 @@ ASSUMPTIONS = [
     "are well typed",
     "column values and literals are non-zero numbers (in-memory EQL drops falsy bound values: F-C01-3, not C07's subject)",
     "objects that can be compared by an equality join are value-distinct (unique names / ids), so dataclass == is identity",
-    "string columns (Body.name) are modelled by the rank of the string in a fixed sorted table (equality, order and "
-    "membership are preserved); all strings are lower-case letters, so SQLite's case-insensitive LIKE / wildcards are "
-    "not tripped; the substring forms contains(attr, 'x') / contains('xyz', attr) and a bare string attribute used as a "
-    "condition are not generated",
+    "string columns (Body.name) carry the rank of the string in the code-point sorted table the case line states "
+    "(equality, order and membership are preserved); the pool has lower-case, mixed-case and `_`/`%`-containing strings; "
+    "substring tests are modelled on the decoded strings (instr exact, for all three operand shapes since fix 20e7107; F-C07-5 was the LIKE rendering); a bare string "
+    "attribute used as a condition is not generated (SQLite casts text to 0)",
     "generated relationship hops are never None and ordering comparisons are never applied to a column holding None "
     "(in memory those raise AttributeError/TypeError instead of answering)",
 ]
@@ -75,7 +76,10 @@ RULE = ("corpus + seeded structured cases over the dataset's Position/Position4D
         "pair, either operand order) over databases whose selected entities have 0/1/2/3 partner rows, each run with "
         "an(...) and the(...) and observed WITH multiplicity; a deterministic family of string-column membership "
         "(in_(attr,[..]) / contains([..],attr), lists and tuples of length 0-3 whose elements equal / are proper "
-        "substrings / proper superstrings of persisted values, directly and across 1 hop); "
+        "substrings / proper superstrings of persisted values, directly and across 1 hop); a deterministic family of "
+        "substring tests (contains(lit, attr), contains(attr, lit), contains(attr, attr), both spellings) over names and "
+        "literals with `_`, `%`, mixed case; a deterministic family of relationship-valued paths of 1-2 hops (path ==/!= "
+        "path, ==/!= None, bare) over a store where an entity's and its parent's/child's/handle's targets differ; "
         "3-12 persisted objects incl. None in optional columns; both worlds run for real; non-trivial = the expected "
         "answer is neither empty nor every candidate (or a definite rejection); distinct by case text")
 
@@ -88,6 +92,20 @@ RULE = ("corpus + seeded structured cases over the dataset's Position/Position4D
 # `contains(attr, "x")`, which is not modelled) is case-insensitive and treats % and _ as wildcards.
 STRTAB: List[str] = sorted(
     [a for a in "abc"] + [a + b for a in "abc" for b in "abc"] + [a + b + c for a in "abc" for b in "abc" for c in "abc"])
+# ^ legacy table: case lines WITHOUT a `(strtab …)` item (older corpus lines) rank their strings in it.
+# Every generated line now carries its own table `(strtab s1 s2 …)` (code-point sorted, so ranks keep preserving equality
+# and order in both worlds) — STRTAB2 — which the Lean model also uses to decode ranks for the substring tests
+# `contains("literal", attr)` (instr), `contains(attr, "literal")` (instr since fix 20e7107; before: LIKE, case-insensitive, % and _ wildcards — F-C07-5) and
+# `contains(attr, attr)` (instr).  The pool has lower-case strings with many sub/superstring relations, mixed-case variants
+# of them, and strings containing the LIKE wildcards `_` and `%`.  No empty string (falsy), no blanks/parentheses/quotes.
+STRTAB2: List[str] = sorted(set(
+    ["a", "aa", "aab", "ab", "abc", "b", "bc", "bca", "c", "ca", "cab"]
+    + ["A", "AB", "Ab", "aB", "ABC", "aBc", "B", "Bc", "bC", "C", "cA"]
+    + ["_", "%", "a_", "_b", "a_c", "a%", "%c", "a%c", "ab_", "_bc", "%b%", "__"]))
+
+
+def _code(t: str) -> int:
+    return STRTAB2.index(t) + 1
 VOCAB: Dict[str, Dict[str, Any]] = {
     "geom": {
         "module": "test.dataset.example_classes",
@@ -167,6 +185,15 @@ class Sch:
         if maxhops > 0:
             for r, t in self.rels(c):
                 out.extend(((r,) + p, k) for p, k in self.scalar_chains(t, maxhops - 1))
+        return out
+
+    def rel_chains(self, c: str, maxhops: int) -> List[Tuple[Tuple[str, ...], str]]:
+        """paths of 1..maxhops relationships (ending ON a relationship), with the class they reach"""
+        out = []
+        for r, t in self.rels(c):
+            out.append(((r,), t))
+            if maxhops > 1:
+                out.extend(((r,) + p, tt) for p, tt in self.rel_chains(t, maxhops - 1))
         return out
 
     def sexp(self) -> str:
@@ -265,9 +292,11 @@ def _fresh_str(rng, db: "_DB", a: str) -> int:
     """rank of a string no other object carries in column `a` (objects compared by an equality join stay value-distinct);
     short strings with many sub/superstring relations among them are preferred"""
     used = {o["vals"].get(a) for o in db.objs}
-    pool = [STRTAB.index(x) + 1 for x in ("a", "ab", "abc", "b", "bc", "c", "ca", "cab", "bca", "aa", "aab")]
-    free = [k for k in pool if k not in used] or [k for k in range(1, len(STRTAB) + 1) if k not in used]
-    return rng.choice(free[:6]) if rng is not None else free[0]
+    free = [k for k in range(1, len(STRTAB2) + 1) if k not in used]
+    if rng is None:
+        return free[0]
+    short = [k for k in free if len(STRTAB2[k - 1]) <= 2]
+    return rng.choice(short if (short and rng.random() < 0.7) else free)
 
 
 def _gen_db(rng, sch: Sch, root: str, others: List[str]) -> _DB:
@@ -349,15 +378,83 @@ class _Gen:
         if present and r < 0.5:
             return rng.choice(present)
         if present and r < 0.85:
-            base = STRTAB[rng.choice(present) - 1]
-            rel = [k + 1 for k, t in enumerate(STRTAB) if t != base and (t in base or base in t)]
+            base = STRTAB2[rng.choice(present) - 1]
+            # sub/superstrings, also up to case and up to the LIKE wildcards
+            def like(x, y):
+                import fnmatch
+                return fnmatch.fnmatchcase(y.lower(), "*" + x.lower().replace("%", "*").replace("_", "?") + "*")
+            rel = [k + 1 for k, t in enumerate(STRTAB2) if t != base and (like(t, base) or like(base, t))]
             if rel:
                 return rng.choice(rel)
-        return rng.randint(1, len(STRTAB))
+        return rng.randint(1, len(STRTAB2))
+
+    def rel_chains(self, var: int):
+        cls = self.vars[var]
+        out = self.sch.rel_chains(cls, max(1, self.maxhops))
+        if var != 0:
+            sel = self.vars[0]
+            out = [(p, t) for p, t in out if self.sch.is_sub(sel, self.sch.declaring(cls, p[0]) or "?")]
+        return out
+
+    def rel_atom(self, var: int) -> Optional[str]:
+        """a comparison of relationship-VALUED paths (the chain ends on a relationship: its FK column in SQL, the
+        related object in memory): path == / != path of the same variable, path == / != None, bare path"""
+        rng, sch = self.rng, self.sch
+        rc = self.rel_chains(var)
+        if not rc or self.maxhops < 1:
+            return None
+        w = [1 + 3 * (len(p) - 1) for p, _ in rc]
+        p1, t1 = rng.choices(rc, weights=w)[0]
+        self.tags.add("rel-valued-path")
+        self.tags.add("rel-path-hops%d" % (len(p1) - 1))
+        if var != 0:
+            self.tags.add("other-var-chain")
+        r = rng.random()
+        if r < 0.65:
+            comparable = [(p, t) for p, t in rc if p != p1 and (sch.is_sub(t, t1) or sch.is_sub(t1, t))]
+            if comparable:
+                p2, _ = rng.choice(comparable)
+                op = rng.choice(["eq", "eq", "ne"])
+                self.tags.add("cmp-rel-rel")
+                self.tags.add("cmp-" + op)
+                return "(cmp %s %s %s)" % (op, _ch(var, p1), _ch(var, p2))
+        if r < 0.88:
+            op = rng.choice(["eq", "ne"])
+            self.tags.add("cmp-rel-none")
+            return "(cmp %s %s (lit N))" % (op, _ch(var, p1))
+        self.tags.add("bare-rel")
+        return "(attr %s)" % _ch(var, p1)
+
+    def sub_atom(self, var: int, path, var_pool: List[int]) -> str:
+        """substring test on a string chain: contains("lit", attr) / contains(attr, "lit") / contains(attr, attr)"""
+        rng = self.rng
+        cls = self.vars[var]
+        style = rng.choice(["contains", "in"])
+        r = rng.random()
+        if r < 0.3:
+            var2 = rng.choice(var_pool)
+            cs2 = [p for p, k in self.chains(var2) if k == "s" and (var2, p) != (var, path)]
+            if cs2:
+                p2 = rng.choice(cs2)
+                self.tags.add("substr-col-col")
+                if var2 != 0:
+                    self.tags.add("other-var-chain")
+                a, b = (_ch(var, path), _ch(var2, p2)) if rng.random() < 0.5 else (_ch(var2, p2), _ch(var, path))
+                return "(sub %s %s %s)" % (a, b, style)
+        k = self.str_lit(cls, path)
+        if r < 0.75:
+            self.tags.add("substr-lit-contains-col")
+            return "(sub (slit %d) %s %s)" % (k, _ch(var, path), style)
+        self.tags.add("substr-col-contains-lit")
+        return "(sub %s (slit %d) %s)" % (_ch(var, path), k, style)
 
     def atom(self, var_pool: List[int]) -> str:
         rng = self.rng
         var = rng.choice(var_pool)
+        if rng.random() < 0.12:
+            ra = self.rel_atom(var)
+            if ra is not None:
+                return ra
         c = self.pick_chain(var)
         if c is None:
             var = 0
@@ -374,6 +471,8 @@ class _Gen:
         if is_s:
             self.tags.add("string-column")
         lit = (lambda: self.str_lit(cls, path)) if is_s else (lambda: _num(rng, 5))
+        if is_s and rng.random() < 0.35:
+            return self.sub_atom(var, path, var_pool)
         r = rng.random()
         if r < 0.55:
             op = rng.choice(["eq", "ne"] if nullable else (["eq", "eq", "ne"] + OPS if is_s else OPS))
@@ -445,8 +544,9 @@ class _Gen:
 
 def _case_line(the: bool, kind: str, vars_: List[str], cond: str, sch: Sch, db: _DB, mult: bool = False) -> str:
     """`mult`: observe the LIST of returned rows / solutions (with repetitions) instead of the set of entities"""
-    return "(q (the %s) (kind %s) (vars %s) (cond %s)%s %s %s)" % (
-        "T" if the else "F", kind, " ".join(vars_), cond, " (mult T)" if mult else "", sch.sexp(), db.sexp())
+    tab = (" (strtab %s)" % " ".join(STRTAB2)) if sch.family == "world" else ""
+    return "(q (the %s) (kind %s) (vars %s) (cond %s)%s%s %s %s)" % (
+        "T" if the else "F", kind, " ".join(vars_), cond, " (mult T)" if mult else "", tab, sch.sexp(), db.sexp())
 
 
 ROOTS = {
@@ -698,7 +798,7 @@ def _string_family(tier: str) -> List[Case]:
     substrings of / proper superstrings of the persisted values; `in_(attr, [..])` and `contains([..], attr)`"""
     sch = Sch("world")
     names = ["a", "ab", "abc", "b", "bc"]
-    code = lambda t: STRTAB.index(t) + 1
+    code = _code
     db = _DB(sch)
     w = db.add("World", {"id": 1}, {})
     bodies = [db.add(c, {"size": 1 + i, "name": code(t)}, {"world": w})
@@ -730,8 +830,108 @@ def _string_family(tier: str) -> List[Case]:
     return cases
 
 
+def _substring_family(tier: str) -> List[Case]:
+    """substring tests on a string column, all three shapes the translator has a case for, both spellings
+    (`contains(c, i)` / `in_(i, c)`), over stored values and literals that contain the LIKE wildcards `_` / `%`, differ
+    only in case from substrings of each other, or are plain sub/superstrings"""
+    sch = Sch("world")
+    names = ["ab", "AB", "a_", "a%", "_", "%", "b", "Ab", "abc", "a_c"]
+    db = _DB(sch)
+    w = db.add("World", {"id": 1}, {})
+    kinds = ["Body", "Handle", "Container"]
+    bodies = [db.add(kinds[i % 3], {"size": 1 + i % 3, "name": _code(t)}, {"world": w}) for i, t in enumerate(names)]
+    n = len(bodies)
+    for i in range(n):  # parent/child pairs covering many (container, item) combinations
+        db.add(["FixedConnection", "PrismaticConnection", "RevoluteConnection"][i % 3], {},
+               {"world": w, "parent": bodies[i], "child": bodies[(3 * i + 1) % n]})
+    lits = ["abc", "ABC", "a_c", "a%c", "ab", "aB", "b", "B", "_", "%", "a_", "ab_", "%b%", "cab", "__"]
+    if tier == "quick":
+        lits = lits[:12]
+    targets = [("Body", ("name",)), ("Connection", ("parent", "name")), ("FixedConnection", ("child", "name"))]
+    cases = []
+    k = 0
+    for li, t in enumerate(lits):
+        for ti, (root, path) in enumerate(targets):
+            if tier == "quick" and ti == 2 and li % 2:
+                continue
+            for shape in ("lit-contains-col", "col-contains-lit"):
+                for style in ("contains", "in"):
+                    k += 1
+                    a, b = ("(slit %d)" % _code(t), _ch(0, path)) if shape == "lit-contains-col" else (_ch(0, path), "(slit %d)" % _code(t))
+                    cond = "(sub %s %s %s)" % (a, b, style)
+                    if k % 5 == 0:
+                        cond = "(and %s (cmp ge %s (lit 1)))" % (cond, _ch(0, path[:-1] + ("size",)))
+                    tags = ("substring-family", "world", "root-" + root, "string-column", "substr-" + shape,
+                            "hops%d" % (len(path) - 1))
+                    the = k % 7 == 0
+                    cases.append(Case(_case_line(the, "entity", [root], cond, sch, db, k % 2 == 0),
+                                      tags + (("the",) if the else ()), "exhaustive"))
+    for root in ("Connection", "FixedConnection", "PrismaticConnection", "RevoluteConnection"):
+        for a, b in ((("parent", "name"), ("child", "name")), (("child", "name"), ("parent", "name"))):
+            for style in ("contains", "in"):
+                k += 1
+                cond = "(sub %s %s %s)" % (_ch(0, a), _ch(0, b), style)
+                tags = ("substring-family", "world", "root-" + root, "string-column", "substr-col-col", "hops1")
+                cases.append(Case(_case_line(False, "entity", [root], cond, sch, db, k % 2 == 0), tags, "exhaustive"))
+    return cases
+
+
+def _rel_path_family(tier: str) -> List[Case]:
+    """comparisons of relationship-VALUED paths (1 and 2 hops, the last hop a relationship): path ==/!= path, path ==/!=
+    None, bare path; over a store in which the related objects of an entity and of its parent/child/handle/body differ
+    for some entities and coincide for others (the intermediate rows share the joined-inheritance base table with the
+    selected row)"""
+    sch = Sch("world")
+    db = _DB(sch)
+    w1 = db.add("World", {"id": 1}, {})
+    w2 = db.add("World", {"id": 2}, {})
+    nm = iter(range(1, 40))
+    b1 = db.add("Body", {"size": 1, "name": next(nm)}, {"world": w1})
+    b2 = db.add("Body", {"size": 2, "name": next(nm)}, {"world": w2})
+    h1 = db.add("Handle", {"size": 1, "name": next(nm)}, {"world": w1})
+    h2 = db.add("Handle", {"size": 3, "name": next(nm)}, {"world": w2})
+    c1 = db.add("Container", {"size": 2, "name": next(nm)}, {"world": w1})
+    c2 = db.add("Container", {"size": 1, "name": next(nm)}, {"world": w2})
+    for cls, p, c, w in [("FixedConnection", b1, b2, w1), ("FixedConnection", b2, h2, w2), ("FixedConnection", b1, h1, w1),
+                         ("PrismaticConnection", b2, h1, w1), ("PrismaticConnection", c1, b1, w2),
+                         ("RevoluteConnection", h1, h1, w1), ("RevoluteConnection", c2, b1, w2), ("Connection", h2, c1, w2)]:
+        db.add(cls, {}, {"world": w, "parent": p, "child": c})
+    for h, b, w in [(h1, b1, w1), (h1, b2, w2), (h2, h2, w1), (h2, b2, w2)]:
+        db.add("Door", {}, {"world": w, "handle": h, "body": b})
+    for h, c, w in [(h1, c1, w1), (h2, c1, w1), (h2, c2, w2), (h1, c2, w1)]:
+        db.add("Drawer", {}, {"world": w, "handle": h, "container": c})
+    roots = ["Connection", "FixedConnection", "PrismaticConnection", "Door", "Drawer"]
+    cases = []
+    k = 0
+
+    def add(root, cond, kindtag):
+        nonlocal k
+        k += 1
+        the = k % 5 == 0
+        tags = ("rel-path-family", "world", "root-" + root, "rel-valued-path", kindtag) + (("the",) if the else ())
+        cases.append(Case(_case_line(the, "entity", [root], cond, sch, db, k % 2 == 0), tags, "exhaustive"))
+
+    for root in roots:
+        rc = sch.rel_chains(root, 2)
+        for i, (p1, t1) in enumerate(rc):
+            for j, (p2, t2) in enumerate(rc):
+                if i == j or not (sch.is_sub(t1, t2) or sch.is_sub(t2, t1)):
+                    continue
+                if tier == "quick" and len(p1) == 1 and len(p2) == 1 and (i + j) % 2:
+                    continue
+                for op in ("eq", "ne"):
+                    cond = "(cmp %s %s %s)" % (op, _ch(0, p1), _ch(0, p2))
+                    if k % 6 == 0:
+                        cond = "(or %s (cmp eq %s (lit 1)))" % (cond, _ch(0, ("world", "id")))
+                    add(root, cond, "cmp-rel-rel")
+            for op in ("eq", "ne"):
+                add(root, "(cmp %s %s (lit N))" % (op, _ch(0, p1)), "cmp-rel-none")
+            add(root, "(attr %s)" % _ch(0, p1), "bare-rel")
+    return cases
+
+
 def generate(rng, tier, n):
-    cases = _join_family(tier) + _string_family(tier)
+    cases = _join_family(tier) + _string_family(tier) + _substring_family(tier) + _rel_path_family(tier)
     for i in range(n):
         r = rng.random()
         stream = "single" if r < 0.56 else ("two" if r < 0.76 else ("joinmult" if r < 0.86 else "unsupported"))
@@ -955,7 +1155,8 @@ def _w_init(repo: str, gendir: str) -> None:
         _W.update(ok=False, err="%s: %s" % (type(e).__name__, e))
 
 
-def _build_objects(fam: str, db):
+def _build_objects(fam: str, db, tab=None):
+    tab = tab or STRTAB
     mod = _W["mods"][fam]
     kinds = {}
     sch = Sch(fam)
@@ -969,7 +1170,7 @@ def _build_objects(fam: str, db):
             if f[0] == "v":
                 k = ck.get(f[1], "i")
                 v = None if f[2] == "N" else (
-                    float(int(f[2])) if k.startswith("f") else (STRTAB[int(f[2]) - 1] if k == "s" else int(f[2])))
+                    float(int(f[2])) if k.startswith("f") else (tab[int(f[2]) - 1] if k == "s" else int(f[2])))
                 kw[f[1]] = v
             else:
                 kw[f[1]] = None if f[2] == "N" else objs[int(f[2])]
@@ -991,6 +1192,7 @@ def _build_query(s, fam: str, objs):
 
     sch = Sch(fam)
     var_classes = sx_field(items, "vars")
+    tab = sx_field(items, "strtab") or STRTAB  # lines without their own table: the legacy table
 
     def chain_kind(c) -> str:
         """column kind of the chain's last attribute (unknown attributes: int)"""
@@ -1005,7 +1207,7 @@ def _build_query(s, fam: str, objs):
     def lit(x, kind="i"):
         if x == "N":
             return None
-        return STRTAB[int(x) - 1] if kind == "s" else int(x)
+        return tab[int(x) - 1] if kind == "s" else int(x)
 
     def chain(c):
         node = vars_[int(c[1])]
@@ -1049,6 +1251,11 @@ def _build_query(s, fam: str, objs):
             return E.contains(vals, item) if style.startswith("contains") else E.in_(item, vals)
         if h == "attr":
             return chain(e[1])
+        if h == "sub":
+            def sop(o):
+                return tab[int(o[1]) - 1] if o[0] == "slit" else chain(o)
+            container, item = sop(e[1]), sop(e[2])
+            return E.in_(item, container) if (len(e) > 3 and e[3] == "in") else E.contains(container, item)
         if h == "not":
             return E.not_(expr(e[1]))
         if h == "exists":
@@ -1094,7 +1301,7 @@ def _w_one(line: str) -> Tuple[str, str]:
         is_the = sx_field(items, "the")[0] == "T"
         mult = (sx_field(items, "mult") or ["F"])[0] == "T"
         W["SymbolGraph"]()
-        objs = _build_objects(fam, sx_field(items, "db"))
+        objs = _build_objects(fam, sx_field(items, "db"), sx_field(items, "strtab"))
         oidx = {id(o): i for i, o in enumerate(objs)}
         engine = W["create_engine"]("sqlite:///:memory:")
         W["G"].Base.metadata.create_all(engine)
